@@ -123,7 +123,8 @@ PROP = dict(
     class_names={0: "Ok", 2: "error (InvalidOrder)", 3: "panic", 4: "hang", 10: "bsearch"},
     trusted_base=[
         "axioms: none, except for C09_f64_add_exact / C09_f64_add_exact_on_integers and the three premise-free schedule theorems "
-        "(C09_hilbert_sched_indep_proved, C09_hilbert_sched_is_sequential_proved, C09_histogram_sched_indep_proved), which go through "
+        "(C09_hilbert_sched_indep_proved, C09_hilbert_sched_is_sequential_proved, C09_histogram_sched_indep_proved) and the exact-sums "
+        "groundwork (C09_f64_sub_exact, C09_flt_on_integers, C09_round_sums_exact), which go through "
         "Flocq and therefore use the standard axioms of Coq's classical real numbers: ClassicalDedekindReals.sig_forall_dec, "
         "ClassicalDedekindReals.sig_not_dec, Classical_Prop.classic, FunctionalExtensionality.functional_extensionality_dep; every "
         "other theorem of Properties/C09.v is closed under the global context",
